@@ -282,6 +282,25 @@ fn boundary_leg(g: &Grammar, all_scalars: bool) -> Acc {
         texts.push(format!("@k: {s};\nx"));
         texts.push(format!("x == {s} and y"));
     }
+    // very long non-ASCII literals (9 KiB of 2-, 3- and 4-byte characters behind 0..3 ASCII bytes, so
+    // that a cut at any byte offset up to 8192 falls inside a character for one of the alignments)
+    // in valid and misplaced positions, with and without a bad escape
+    for wide in ['é', '€', '😀'] {
+        let w = wide.len_utf8();
+        for pre in 0..w {
+            let body = format!("{}{}", "a".repeat(pre), wide.to_string().repeat(9000 / w));
+            for lit in [format!("\"{body}\""), format!("\"{body}\\q\""), format!("\"\\q{body}\""), format!("\"{body}\\u{{110000}}{body}\"")] {
+                texts.push(lit.clone());
+                texts.push(format!("x {lit}"));
+                texts.push(format!("[i1 {lit}]"));
+                texts.push(format!("{lit} {lit}"));
+                texts.push(format!("@k: {lit} x;\nx"));
+                texts.push(format!("{{a: i1 b: {lit}}}"));
+            }
+            texts.push(format!("x{body} y{body}"));
+            texts.push(format!("// {body}\nx y"));
+        }
+    }
     for t in ["\"", "\"abc", "\"abc\\", "\"abc\\\"", "\"\\u{41\"", "\"\n", "i", "f", "d", "0x", "0o", "0b", "@", "@k", "@k:", "@k: i1", "//", "// c", "/", "/ /", "\u{feff}x", "x\u{0}", "\u{85}x\u{2028}"] {
         texts.push(t.to_string());
     }
